@@ -270,3 +270,22 @@ func verifHarness_C03_dial_outcomes() {
 	}
 	verifAssert(false, "witness")
 }
+
+
+// registration failure: EPOLL_CTL_ADD fails after the open notification
+func verifHarness_C03_registration_failure() {
+	l := verifLifeEngine(verifChoose("mode", 3), Config{})
+	verifSched(true, 1)
+	if err := l.g.Start(); err != nil {
+		return
+	}
+	f := vk.newFd(vkSockStream)
+	vk.failAdd[f.fd] = true
+	c := &Conn{fd: f.fd, typ: ConnTypeTCP}
+	err := l.g.pollers[0].addConn(c)
+	verifAssertD(err != nil, "failed-registration-is-reported", "")
+	verifJoin()
+	verifAssertD(l.opens[c] == 1 && l.closes[c] == 1, "exactly-one-close-notification", "registration-failure")
+	verifAssertD(f.closes == 1 && !f.open, "descriptor-closed-exactly-once", "registration-failure")
+	verifAssert(false, "witness")
+}
